@@ -926,7 +926,7 @@ func isCPUSvnHigherOrEqual(pckCertCPUSvnComponents []byte, sgxTcbcomponents []pc
 }
 
 func isTdxTcbSvnHigherOrEqual(teeTcbSvn []byte, tdxTcbcomponents []pcs.TcbComponent) bool {
-	if len(teeTcbSvn) != len(tdxTcbcomponents) {
+	if len(teeTcbSvn) != len(tdxTcbcomponents) || len(teeTcbSvn) < 2 {
 		return false
 	}
 	start := 0
